@@ -919,7 +919,9 @@ createApp({
 
                         for (const txn of txns) {
                             // Use centralized categorizeAmount() for consistent classification
-                            const c = categorizeAmount(txn.amount || 0, tags);
+                            // (each transaction by ITS OWN tags, as the command line does: a merchant's
+                            // tag list is the union over all its transactions)
+                            const c = categorizeAmount(txn.amount || 0, txn.tags || tags);
                             totals.income += c.income;
                             totals.investment += c.investment;
                             totals.transferIn += c.transferIn;
@@ -1090,7 +1092,7 @@ createApp({
 
                         for (const txn of merchant.filteredTxns || []) {
                             // Use centralized categorization
-                            const c = categorizeAmount(txn.amount, tags);
+                            const c = categorizeAmount(txn.amount, txn.tags || tags);
 
                             // Track spending by month and category
                             if (c.spending > 0) {
